@@ -14,7 +14,12 @@ from .explore import HarnessError
 
 class Ctx:
     __slots__ = ("inst", "twopl", "pc", "stab", "crits", "tail", "text",
-                 "positions", "time_limit")
+                 "positions", "time_limit", "partial")
+
+    def __init__(self):
+        # partial = True: only some of the optimal classes were explored, so
+        # "every feasible point is returnable" style oracles must not be applied
+        self.partial = False
 
     def describe(self):
         return {"instance": I.to_json(self.inst), "file": self.text,
@@ -37,6 +42,39 @@ def make_work(judge, *, getters=("short", "long"), conform_rate=0,
               seed=0, max_execs=20000, render_kw=None):
     """Return work(item, tally) for pool.run.
     item = (inst, [ (twopl, pc, stab, crits[, positions]) ... ])."""
+
+    sentinel = {}
+
+    def run_texts(text, tail):
+        """All result texts of one item over all optimal classes (masked)."""
+        out = []
+        from .pool import Tally
+        for choices, obs in lpcheck.explore_item(text, tail, Tally(), getters=getters,
+                                                 max_execs=max_execs):
+            obs["solver"] = None
+            out.append(tuple((name, lprun.mask_times(v) if isinstance(v, str) else
+                              (v or {}).get("fingerprint") if isinstance(v, dict) else None)
+                             for name, v in obs["outputs"]))
+        return out
+
+    def sentinel_recheck(tally, last_ctx):
+        """Differential oracle from a non-initial process state: the first item
+        this worker processed is re-run and must give exactly the texts it gave
+        the first time (state leaking between instances in one process)."""
+        if not sentinel:
+            return
+        again = run_texts(sentinel["text"], sentinel["tail"])
+        tally.inc("sentinel_rechecks")
+        if again != sentinel["texts"]:
+            v = dict(sentinel["describe"])
+            v["fingerprint"] = "result-depends-on-earlier-instances-in-the-process"
+            v["what"] = ("re-running the first item of this worker after other items gives "
+                         "different result texts; last item before the re-run: %r %r" % (
+                             last_ctx.tail, last_ctx.text))
+            v["history_last_item"] = last_ctx.describe()
+            tally.violation(v)
+
+    counter = [0]
 
     def work(item, tally):
         inst, optlist = item
@@ -72,6 +110,12 @@ def make_work(judge, *, getters=("short", "long"), conform_rate=0,
                 execs.append(e)
             tally.inc("items")
             judge(ctx, execs, tally)
+            counter[0] += 1
+            if not sentinel:
+                sentinel.update(text=text, tail=list(ctx.tail), describe=ctx.describe(),
+                                texts=run_texts(text, ctx.tail))
+            elif counter[0] % 150 == 0:
+                sentinel_recheck(tally, ctx)
             if conform_rate and _h(seed, text, tuple(ctx.tail)) % conform_rate == 0:
                 conform(ctx, execs, tally)
             if execs:
@@ -131,8 +175,37 @@ LP_ASSUMPTIONS = [
 ]
 
 
+def interleave_items(tier, optlist, same_option_pairs=True):
+    """Items (instA, optA, instB, optB) for vf.interleave.work_lp."""
+    insts = []
+    for ns, np_, nl, sp, le, lp in I.Q_STRUCTS:
+        for name, pq, lq3 in I.quota_profiles3(ns, np_, nl, le):
+            if name in ("unit", "p1lq1", "leclq1", "cap2") or tier == "thorough":
+                insts.append(I.make3(ns, np_, nl, sp, le, lp, pq, lq3))
+    for x in I.family_HR(True, sizes=[(2, 2)]):
+        if x.pq in (((0, 1), (0, 1)), ((1, 1), (0, 1))) and \
+                all(len(s) == 2 for s in x.sprefs) and \
+                all(len(g) == 1 for s in x.sprefs for g in s) and \
+                all(len(g) == 1 for s in x.lprefs for g in s):
+            insts.append(x)
+    items = []
+    for inst in insts:
+        for a in optlist:
+            for b in optlist:
+                if a != b:
+                    items.append((inst, a, inst, b))
+    if same_option_pairs:
+        for i, inst in enumerate(insts):
+            other = insts[(i + 1) % len(insts)]
+            if other.kind == inst.kind:
+                for a in optlist[:4]:
+                    items.append((inst, a, other, a))
+    return items
+
+
 def run_lp_check(pid, level, tier, judge, rule, *, getters=("short", "long"),
-                 conform_rate=None, extra=None, vacuity=None, chunksize=4):
+                 conform_rate=None, extra=None, vacuity=None, chunksize=4,
+                 interleave_opts=None):
     """Shared main() of the LP-mode checks."""
     from . import evidence, pool
     from .families import lp_items
@@ -144,6 +217,13 @@ def run_lp_check(pid, level, tier, judge, rule, *, getters=("short", "long"),
     work = make_work(judge, conform_rate=conform_rate, seed=seed,
                      getters=getters)
     tally = pool.run(work, items, chunksize=chunksize)
+    if interleave_opts:
+        from . import interleave
+        it = interleave_items(tier, interleave_opts)
+        tally.merge(pool.run(interleave.work_lp(judge, pid), it, chunksize=8))
+        desc.append({"family": "two Solver objects alive at once (both constructed, then solved "
+                               "in either order): %d option vectors, all ordered pairs on each of "
+                               "the small instances" % len(interleave_opts), "items": len(it)})
     c = tally.c
     coverage = {
         "states": c.get("executions", 0),
@@ -159,6 +239,8 @@ def run_lp_check(pid, level, tier, judge, rule, *, getters=("short", "long"),
         "max_fanout_optimal_classes": c.get("max_fanout", 0),
         "read_certificate_failed_items": c.get("read_certificate_failed_items", 0),
         "conformance_runs_real_cbc": c.get("conformance_runs", 0),
+        "sentinel_rechecks_from_non_initial_process_state": c.get("sentinel_rechecks", 0),
+        "interleaved_two_solver_histories": c.get("interleaved_histories", 0),
         "families": desc,
     }
     if extra:
